@@ -221,6 +221,12 @@ def selftest_primitives(workdir):
         for n in (16, 24, 32):
             if g["shake%d" % n] != hashlib.shake_256(b).hexdigest(n):
                 raise ToolError("primitive self-test: SHAKE256 override disagrees with hashlib on %s" % b.hex())
+    # the overrides against the PURE TLA+ definitions (Sha256Pure.tla, KeccakPure.tla): the Java code is an
+    # optimisation of something the specification states
+    rc, out, _ = run_tlc("MC_PrimPure", "MC_PrimPure.cfg", os.path.join(workdir, "meta-primpure"), timeout=600)
+    if rc != 0 or "Error" in out or "pure SHA-256 agrees" not in out or "pure SHAKE256 agrees" not in out:
+        sys.stdout.write(out[-3000:])
+        raise ToolError("primitive self-test: the overrides disagree with the pure TLA+ definitions (or TLC failed)")
     return len(inputs)
 
 
